@@ -26,7 +26,7 @@ SCRIPT = (4, 120, 16, 1500)   # scheduled scripts: cheap per case, fewer cases
 
 CHECKS = {
     "C01": seq(["TestC01"]),
-    "C02": seq(["TestC02Seq", "TestC02Race"], per_test={"TestC02Race": SCRIPT}),
+    "C02": seq(["TestC02Seq", "TestC02Race", "TestC02Contend"], per_test={"TestC02Race": SCRIPT, "TestC02Contend": (4, 25, 16, 600)}),
     "C03": seq(["TestC03"], qchecks=150, tchecks=3000, qshards=8),
     "C04": seq(["TestC04Clock", "TestC04Bucket", "TestC04Reopen"], per_test={"TestC04Clock": (2, 3000, 8, 200000), "TestC04Reopen": (4, 40, 16, 1500)}),
     "C05": seq(["TestC05"]),
